@@ -5,7 +5,7 @@ import common as C
 
 PW = {"op": "pw-op", "pr": "pw-pr", "ms": "pw-ms", "ob": "pw-ob"}
 ROLE = {"op": "op", "pr": "present", "ms": "message", "ob": "observe"}
-PREFIX = {"C08": ("C08_",), "C11": ("C11_",), "C12": ("C12_",), "C14": ("C14_",), "C15": ("C15_",)}
+PREFIX = {"C08": ("C08_",), "C10": ("C10_",), "C11": ("C11_",), "C12": ("C12_",), "C14": ("C14_",), "C15": ("C15_",)}
 
 
 def group_json(allowrec, unrestricted, extra=None):
@@ -39,6 +39,7 @@ def expect_table(allowrec, unrestricted, groups=("g", "h")):
 
 def fixture(allowrec, unrestricted, extra_files=None, extra_g=None):
     files = {"groups/g.json": group_json(allowrec, unrestricted, extra_g), "groups/h.json": group_json(allowrec, unrestricted),
+             "groups/k.json": group_json(allowrec, unrestricted, {"autolock": True}),
              "data/config.json": json.dumps({"writableGroups": True, "users": {"root": {"password": "rootpw", "permissions": "admin"}}})}
     if extra_files:
         files.update(extra_files)
@@ -206,6 +207,20 @@ def corpus():
     out.append({"name": "racing-change-broadcasts-setdata", "fixture": fixture(0, 0), "expect": expect_table(0, 0), "delay": "rtpconn.changeBroadcast:1:400", "pipelined": True, "steps": [
         ["ws", "A"], J("A", "op"), S, ["ws", "B"], J("B", "pr"), S, ["ws", "C"], J("C", "pr"), S,
         SD("B", {"hand": "up"}), ["sleep", 60], SD("B", {"hand": "down"}), ["sleep", 900], S, ["ws", "E"], J("E", "ob"), S, S]})
+    # C10 seen through the real server: an autolock group, operators that are demoted at run time, the last one leaving
+    ek = expect_table(0, 0, groups=("g", "h", "k"))
+    ek["k"]["!autolock"] = []
+    for variant in ("demoted-leaves-first", "demoted-stays"):
+        stk = [["ws", "A"], J("A", "op", "k"), S, ["send", "A", {"type": "groupaction", "kind": "unlock"}], S,
+               ["ws", "B"], J("B", "op", "k"), S, ["ws", "C"], J("C", "pr", "k"), S,
+               UA("A", "unop", "B"), S, ["send", "C", {"type": "join", "kind": "leave", "group": "k"}], S]
+        if variant == "demoted-leaves-first":
+            stk += [["send", "B", {"type": "join", "kind": "leave", "group": "k"}], S]
+        # the last operator leaves: the group locks itself again; newcomers without 'op' stay out until an operator is back and unlocks
+        stk += [["send", "A", {"type": "join", "kind": "leave", "group": "k"}], S, ["ws", "E"], J("E", "pr", "k"), S,
+                ["ws", "D"], J("D", "ms", "k"), S, J("A", "op", "k"), S, ["ws", "F"], J("F", "pr", "k"), S,
+                ["send", "A", {"type": "groupaction", "kind": "unlock"}], S, ["ws", "G"], J("G", "pr", "k"), S, S]
+        out.append({"name": "autolock-with-runtime-demotion-" + variant, "fixture": fixture(0, 0), "expect": ek, "steps": stk})
     # a token whose username is present but empty, presented without a username; a token without username
     tk = lambda i, extra: json.dumps(dict({"token": i, "group": "g", "permissions": ["present"], "expires": "2099-01-01T00:00:00Z"}, **extra)) + "\n"
     out.append({"name": "token-empty-username", "fixture": fixture(0, 0, extra_files={"data/var/tokens.jsonl": tk("tokE", {"username": ""}) + tk("tokN", {}) + tk("tokU", {"username": "tu"})}),
@@ -259,15 +274,38 @@ def corpus():
         st2.append(S)
     out.append({"name": "history-replay-racing-with-chats", "fixture": fixture(0, 0), "expect": {}, "steps": st2, "pipelined": True})
     out.append({"name": "history-bound-and-clearchat", "fixture": fixture(0, 0), "expect": expect_table(0, 0), "steps": st})
+    # every message stands for itself: a field that is absent is empty, whatever the previous message on that socket said
+    CH = lambda c, **kw: ["send", c, dict({"type": "chat", "source": c}, **kw)]
+    st5 = [["ws", "A"], J("A", "op"), S, ["ws", "B"], J("B", "pr"), S, ["ws", "C"], J("C", "ms"), S,
+           CH("A", dest="B", value="private-1", id="p1", noecho=True), S, CH("A", value="broadcast-after-private", id="b1"), S,
+           CH("A", kind="me", value="waves", id="b2"), S, CH("A", value="plain-after-me", id="b3"), S,
+           CH("B", dest="C", value="private-2", id="p2"), S, CH("B", value="broadcast-2", id="b4"), S,
+           ["send", "A", {"type": "usermessage", "source": "A", "dest": "C", "kind": "info", "value": "um-direct", "id": "u1"}], S,
+           ["send", "A", {"type": "usermessage", "source": "A", "value": "um-broadcast", "id": "u2"}], S,
+           ["ws", "D"], J("D", "ob"), S, S]
+    out.append({"name": "absent-fields-do-not-carry-over", "fixture": fixture(0, 0), "expect": expect_table(0, 0), "steps": st5})
+    # ids are chosen by the senders: removing one user's message must not touch another user's message with the same id
+    st6 = [["ws", "A"], J("A", "op"), S, ["ws", "B"], J("B", "pr"), S, ["ws", "C"], J("C", "pr"), S,
+           CH("B", value="bob-m1", id="m1"), S, CH("C", value="carol-m1", id="m1"), S, CH("A", value="op-m1", id="m1"), S, CH("B", value="bob-m2", id="m2"), S,
+           ["send", "A", {"type": "groupaction", "kind": "clearchat", "value": {"userId": "B", "id": "m1"}}], S,
+           ["ws", "D"], J("D", "ob"), S,
+           ["send", "A", {"type": "groupaction", "kind": "clearchat", "value": {"userId": "C"}}], S,
+           ["ws", "E"], J("E", "ob"), S, S]
+    out.append({"name": "clearchat-with-colliding-ids", "fixture": fixture(0, 0), "expect": expect_table(0, 0), "steps": st6})
     return out
 
 
-def run(rep, w, tier, pid, replay=None, extra_behs=None):
+def run(rep, w, tier, pid, replay=None, extra_behs=None, corpus_only=None):
     thorough = tier == "thorough"
     sd = C.seed()
     behs = []
     if replay:
-        behs = json.load(open(replay))["replay"].get("behaviours", [])
+        rp = json.load(open(replay))["replay"]
+        if corpus_only and "behaviours" not in rp:
+            return
+        behs = rp.get("behaviours", [])
+    elif corpus_only:
+        behs = [b for b in corpus() if b["name"].startswith(corpus_only)]
     else:
         i = 0
         for (a, u) in ((("TRUE", "FALSE"), ("FALSE", "TRUE"), ("TRUE", "TRUE"), ("FALSE", "FALSE")) if thorough else (("TRUE", "FALSE"), ("FALSE", "TRUE"))):
